@@ -899,8 +899,15 @@ func (x *exec) slice(st *State, ins *ssa.Slice) {
 		if !ok {
 			panic(unsupported("Slice of pointer to non-array"))
 		}
-		if lo != nil || hi != nil {
-			panic(unsupported("partial slice of an array"))
+		if lo != nil {
+			if lv, ok := litVal(*lo); !ok || lv.Sign() != 0 {
+				panic(unsupported("slice of an array with a non-zero lower bound"))
+			}
+		}
+		if hi != nil {
+			if hv, ok := litVal(*hi); !ok || hv.Int64() != at.Len() {
+				panic(unsupported("partial slice of an array"))
+			}
 		}
 		if b.Cell != nil {
 			// a local array (composite literal, varargs): its current elements are copied into a
